@@ -31,25 +31,24 @@ impl ReferentialIntegrity {
             return Ok(true);
         }
 
+        let expected = inner.len();
+
         let inner: Vec<_> = inner
             .iter()
             .map(|u| f_eq(Attribute::Uuid, PartialValue::Uuid(*u)))
             .collect();
 
-        // F_inc(lusion). All items of inner must be 1 or more, or the filter
-        // will fail. This will return the union of the inclusion after the
-        // operation.
-        let filt_in = filter!(f_inc(inner));
-        let b = qs.internal_exists(&filt_in).inspect_err(|err| {
-            error!(?err, filter = ?filt_in, "internal exists failure");
+        // Every referenced uuid must exist as a *live* entry. An inclusion filter is not enough
+        // here: recycled and tombstoned entries are in the uuid index too, so f_inc is satisfied by
+        // them, and the hidden-entry mask applied afterwards only needs ONE live target to leave
+        // a non-empty result. Count the live matches instead (the uuids are distinct).
+        let filt_in = filter!(f_or(inner));
+        let found = qs.internal_search(filt_in).inspect_err(|err| {
+            error!(?err, "internal search failure");
         })?;
 
         // Is the existence of all id's confirmed?
-        if b {
-            Ok(true)
-        } else {
-            Ok(false)
-        }
+        Ok(found.len() == expected)
     }
 
     #[instrument(level = "debug", name = "check_uuids_exist_slow", skip_all)]
